@@ -218,7 +218,7 @@ contract("bacpypes.bvllservice:BIPBBMD.confirmation", name="bacpypes.bvllservice
 
 BBMD_ADDR = Address("192.168.1.1")
 
-def Foreign():
+def Foreign(configured=True):
     def build(b, name):
         o = object.__new__(BIPForeign)
         t = object.__new__(OneShotDeleteTask)
@@ -226,7 +226,7 @@ def Foreign():
         registered = Bool().build(b, name + '.configured')
         o.__dict__.update(serviceID=None, serviceElement=Tok('bse'), clientID=None, clientPeer=Tok('lower'), serverID=None, serverPeer=Tok('upper'),
                           registrationStatus=OneOf(-2, -1, 0, 0x30).build(b, name + '.registrationStatus'),
-                          bbmdAddress=BBMD_ADDR, bbmdTimeToLive=Int(1, 65535).build(b, name + '.ttl'),
+                          bbmdAddress=(BBMD_ADDR if configured else None), bbmdTimeToLive=(Int(1, 65535).build(b, name + '.ttl') if configured else None),
                           _registration_timeout_task=t, taskTime=None, isScheduled=Bool().build(b, name + '.isScheduled'))
         t.fn = o._registration_expired
         b.built[name] = o
@@ -235,7 +235,7 @@ def Foreign():
 
 def result_ok(fd, pdu, old_status, old_timeout_scheduled):
     t = fd._registration_timeout_task
-    if old_status == -2 or not pdu.pduSource == fd.bbmdAddress:
+    if old_status == -2 or fd.bbmdAddress is None or not pdu.pduSource == fd.bbmdAddress:
         return fd.registrationStatus == old_status and t.isScheduled == old_timeout_scheduled        # not ours: ignored
     if fd.registrationStatus != pdu.bvlciResultCode:
         return False
@@ -250,6 +250,12 @@ contract("bacpypes.bvllservice:BIPForeign.confirmation", name="bacpypes.bvllserv
     ensures=["result_ok(self, pdu, old(self.registrationStatus), old(self._registration_timeout_task.isScheduled))",
              "len(trace('to_net')) == 0 and len(trace('to_up')) == 0"],
     modifies=["self.registrationStatus", "self._registration_timeout_task.isScheduled", "self._registration_timeout_task.taskTime"])
+
+contract("bacpypes.bvllservice:BIPForeign.confirmation", name="bacpypes.bvllservice:BIPForeign.confirmation[Result, no BBMD configured]",
+    params={"self": Foreign(configured=False), "pdu": BVL("Result", OneOf(BBMD_ADDR, STRANGER), Const(LOCAL), bvlciResultCode=OneOf(0, 0x30), pduData=Const(None))},
+    ensures=["result_ok(self, pdu, old(self.registrationStatus), old(self._registration_timeout_task.isScheduled))",
+             "len(trace('to_net')) == 0 and len(trace('to_up')) == 0"],
+    modifies=[], note="a stray result reaching a device that has no registration in progress is ignored (C10: stays healthy under garbage)")
 
 contract("bacpypes.bvllservice:BIPForeign.process_task",
     params={"self": Foreign()},
